@@ -12,12 +12,18 @@ CHECKS = {
  "C04": ("exploration", "deviation-bounded exhaustive enumeration: every single-bit flip and every single algebraic alteration of accepted base proofs, run through the real decoder and verifier",
          "For each accepted base proof (k = 0..3 rounds, one- and two-phase) every bit flip of the encoding, every single-field algebraic deviation, every same-type copy/swap, every round edit and trailing bytes must be rejected at decode or at verify, or decode to the identical proof object.",
          "bases and alphabets as listed in the evidence; 'identical object' = canonical re-encoding equals the original", "4 C04"),
+ "C05": ("exploration", "deviation-bounded exhaustive enumeration: every single verifier-side statement/context deviation for every honest base of the program space",
+         "For every honest (program, proof) of the bounded program space, every single verifier-side deviation (commitments, constraint constants/coefficients, label, app data changed/removed/inserted at every position, Pedersen bases) is run on the real verifier; it must reject unless the reference model marks the deviation as one of the statement's own don't-cares.",
+         "one deviation at a time; bases as listed in the evidence", "4 C05"),
  "C07": ("exploration", "exhaustive enumeration of all ordered batches up to a length bound over an instance pool with correlated forgeries, oracle = conjunction of individual real verifications",
          "Every ordered batch (every length, position, size mix) over the pool is run through the real batch_verify and compared with the conjunction of the members' individual verdicts.",
          "batch RNG is a seeded ChaCha; pool and length bound as listed in the evidence", "4 C07"),
  "C08": ("fault_enumeration", "exhaustive enumeration of malformed-input families (shape grid, identity/zero slots, all short strings, all prefixes, per-byte substitutions, length prefixes) executed in isolated child processes with a counting allocator",
          "Every member of the listed hostile-input families is decoded and, if it decodes, verified singly and in three batch arrangements; any unwind, process death or allocation above 8*len+64KiB during decoding is a violation.",
          "inputs outside the listed families are not covered; memory observed via a counting global allocator", "4 C08"),
+ "C10": ("exploration", "exhaustive enumeration of vectors over a small alphabet for n <= 4 and structured vectors up to n = 128, each with every single deviation, against an explicit-folding reference using recorded challenges",
+         "Real create + real verify for every case (through the guarded re-export), every verdict compared with an explicit round-by-round folding of the generators under the challenges recorded from the real run; round count, designed identity rejection and must-reject deviations asserted.",
+         "scalar table {0,1,rho,dense}; challenge scalar derivation replicated from the recorded 32-byte outputs", "4 C10"),
  "C11": ("exploration", "exhaustive enumeration of prefixes and invalid slot contents for proofs of every circuit size in a bounded family",
          "For every proof of the size family and small program space: deterministic encoding, round trip, verdict preserved, exact length law, every strict prefix rejected, every scalar slot with a non-canonical value rejected, every point slot with an off-curve / non-canonical / small-order / out-of-subgroup point rejected.",
          "proof family as listed in the evidence", "4 C11"),
@@ -27,6 +33,9 @@ CHECKS = {
  "C13": ("exploration", "complete grid enumeration over the value alphabet against a harness-side double-and-add reference",
          "Full (v,r) grid x 3 base pairs x 3 curves; all pairs of pairs for additivity; scalings; Prover::commit on every pair.",
          "group addition/doubling of arkworks trusted; values outside VAL not covered", "4 C13"),
+ "C15": ("exploration", "exhaustive enumeration of expression trees up to depth 2 over all operator impls, oracle = recursive denotation; accept-at-value and reject-off-value probes through real prove/verify",
+         "Every expression tree of the bounded grammar is built with the operator impl its operand types select; constrain(e - den(e)) must prove and verify, constrain(e - (den(e)+delta)) must be rejected.",
+         "coefficients limited to {0,-1,2,rho}; fixed 2-gate 2-commitment circuit", "4 C15"),
  "C16": ("model_checking", "explicit-state model checking (stateright BFS) of the abstract allocator, with every model state replayed call-by-call on the real Prover and Verifier",
          "stateright enumerates every call history up to the depth bounds (unmerged tree, and a merged run keyed by the abstract allocator state); each state is re-executed on a real Prover and Verifier (closures inside a real prove/verify) and every returned handle and gate count is compared between the roles and with the abstract allocator; closing probes decide right=out=0 for a gate left open at a phase end.",
          "the abstract allocator is the specification; stateright BFS/visited set trusted", "4 C16"),
